@@ -48,7 +48,7 @@ def ebpf_alu_(obj, s, dreg, sreg, off, imm):
     dst = getreg(obj, dreg, env.E)
     src = env.cst(imm.int(-1), 32) if s == 0 else getreg(obj, sreg, env.E)
     # the flag is put on a copy: a register source is shared by the whole module
-    if obj.mnemonic in ("or", "and", "xor", "neg", "end"):
+    if obj.mnemonic in ("or", "and", "xor", "neg", "end", "div", "mod"):
         src = src.unsigned()
     else:
         src = src.signed()
@@ -75,7 +75,7 @@ def ebpf_alu_(obj, s, dreg, sreg, off, imm):
     dst = getreg(obj, dreg)
     src = env.cst(imm.int(-1), 32).zeroextend(64) if s == 0 else getreg(obj, sreg)
     # the flag is put on a copy: a register source is shared by the whole module
-    if obj.mnemonic in ("or", "and", "xor", "neg", "end"):
+    if obj.mnemonic in ("or", "and", "xor", "neg", "end", "div", "mod"):
         src = src.unsigned()
     else:
         src = src.signed()
